@@ -46,6 +46,8 @@ Clause(c) ==
   ELSE IF ~c.maskblind_ok THEN "values_under_the_mask_do_not_matter"
   ELSE IF ~c.units_ok THEN "convertible_units_give_the_same_physical_result"
   ELSE IF ~c.scaled_ok THEN "fluxes_scale_with_the_image"
+  ELSE IF ~c.scaled_huge_ok THEN "fluxes_scale_with_the_image_by_2_to_30"
+  ELSE IF ~c.scaled_tiny_ok THEN "fluxes_scale_with_the_image_by_2_to_minus_30"
   ELSE IF ~c.iter_equal THEN "iterative_with_one_iteration_equals_single"
   ELSE "ok"
 Init == i = 1
